@@ -424,6 +424,12 @@ func decodeOne(db *TermDB, base *State, tp PtrV, fn interface{}, seq string, rev
 		}
 	}
 	// buffer consumed
+	if r, ok := fs.Ghost["rope:"+pathKey(bobj, nil)].(StrV); ok {
+		if len(flattenRope(r)) != 0 {
+			return false, got
+		}
+		return true, got
+	}
 	nbv := c.mem(fs, bobj).(*StructV)
 	off := termInt(nbv.F[1])
 	bl := nbv.F[0].(SliceV)
